@@ -352,7 +352,10 @@ def jobs_c03(tier):
 def jobs_c05(tier):
     js = jobs_graph(tier, True, 'cyclic')
     # a dependency list that names the same file twice (two includes of x, `after x` + `include x`)
-    for n, inp in ((2, ['F0.txtpp', 'F1.txtpp']), (2, ['F0.txtpp']), (2, ['.']), (3, ['F0.txtpp']), (3, ['.'])):
+    sel = [(2, ['F0.txtpp', 'F1.txtpp']), (2, ['F0.txtpp']), (2, ['.']), (3, ['F0.txtpp'])]
+    if tier != 'quick':
+        sel.append((3, ['.']))          # 447 456 paths, 17 min on 16 cores
+    for n, inp in sel:
         p = {'n': n, 'inputs': inp, 'allow_self': True, 'dup_deps': True}
         if n == 3:
             p['max_deps'] = 2
